@@ -16,6 +16,7 @@ func init() {
 					{Fn: "Harness_C17_src_order_q", Tiers: "quick", Reach: []string{"end"}, Bounds: "source level: 23-declaration skeleton, 2 reference presets, every move of one declaration to another position (506 orders); parsed, type-checked and analysed by the real code inside the engine"},
 					{Fn: "Harness_C17_src_order", Tiers: "thorough", Reach: []string{"end"}, Bounds: "source level: 6 reference presets x 506 single-declaration moves"},
 					{Fn: "Harness_C17_src_files", Tiers: "both", Reach: []string{"end"}, Bounds: "source level: 6 presets x every split of the declaration list into two files x both file orders"},
+					{Fn: "Harness_C17_src_fields", Tiers: "both", Reach: []string{"end"}, Bounds: "source level: 6 presets x exchange of two fields inside struct t1 (3 pairs) or of the two embedded fields of the embedding diamond d1"},
 					{Fn: "Harness_C17_src_repeat", Tiers: "both", Reach: []string{"end"}, Bounds: "source level: 6 presets; analysis repeated on the same and on freshly loaded syntax"},
 					{Fn: "Harness_C17_src_monotone", Tiers: "both", Reach: []string{"end"}, Bounds: "source level: 6 presets x one of 19 reference forms added to the exported function"},
 					{Fn: "Harness_C17_results_k4", Tiers: "thorough", Reach: []string{"end"}, Bounds: "root + 4 objects, uses out-degree <= 2, all 24 numberings"},
